@@ -153,6 +153,9 @@ func runStreamProp(c *Ctx, id string) {
 	if id == "C14" {
 		runC14Keys(c)
 	}
+	if id == "C04" {
+		runC04File(c)
+	}
 	if id == "C16" {
 		runC16Gauges(c)
 		runC16Windows(c)
